@@ -1,11 +1,11 @@
 From Coq Require Import ZArith List String Bool.
 Import ListNotations.
-From TD Require Import Lib.Sexp Model.C12_Chunk Model.C12_Sched.
+From TD Require Import Lib.Sexp Model.C12_Chunk Model.C12_Sched Model.C12_Map.
 Open Scope string_scope.
 
 Definition enc_err (e : err) : sexp :=
   SA (match e with EValue => "evalue" | ERuntime => "eruntime" | EZeroDiv => "ezerodiv" | EType => "etype"
-               | EShape => "eshape" | EDiverge => "ediverge" end).
+               | EShape => "eshape" | EIndex => "eindex" | EDiverge => "ediverge" end).
 Definition enc_res {A} (f : A -> sexp) (r : res A) : sexp :=
   match r with Ok a => SL [SA "ok"; f a] | Raised e => SL [SA "raise"; enc_err e] end.
 
@@ -38,6 +38,31 @@ Definition fn_of (isnone : list bool) (rows : list nat) : option (list (option n
   | [] => Some []
   | a :: _ => if nth a isnone false then None else Some (map Some rows)
   end.
+
+(* the function family of the map-full / map-iter streams (harness/c12.py::full_fn): a row is identified by its position
+   along the mapped dim; a chunk whose first row a has isnone[a] returns None; "first": only the first row of the chunk
+   (batch size 1 along dim); "dup": the chunk twice (cat along dim); an unbound chunk (chunksize == 0) is returned whole *)
+Definition fn_full (kind : string) (isnone : list bool) (unbound : bool) (rows : list nat) : option (list (option nat)) :=
+  match rows with
+  | [] => Some []
+  | a :: _ =>
+      if nth a isnone false then None else
+      if unbound then Some (map Some rows) else
+      match kind with
+      | "first" => Some [Some a]
+      | "dup" => Some (map Some rows ++ map Some rows)%list
+      | _ => Some (map Some rows)
+      end
+  end.
+
+Definition dec_mparams (dim cs nc nw gen pbar : sexp) : option mparams :=
+  match dec_Z dim, dec_opt dec_nat cs, dec_opt dec_nat nc, dec_nat nw, dec_bool gen, dec_bool pbar with
+  | Some dim, Some cs, Some nc, Some nw, Some gen, Some pbar =>
+      Some {| p_dim := dim; p_cs := cs; p_nc := nc; p_nw := nw; p_gen := gen; p_pbar := pbar |}
+  | _, _, _, _, _, _ => None
+  end.
+
+Definition enc_total (t : option (option nat)) : sexp := enc_opt (enc_opt enc_nat) t.
 
 (* ---------------------------------------------------------------- thread pools *)
 Fixpoint dec_tree (fuel : nat) (s : sexp) : option tree :=
@@ -150,6 +175,20 @@ Definition dispatch (cmd : string) (args : list sexp) : option sexp :=
       | Some n, Some cs, Some nc, Some nw, Some gen, Some kind, Some isnone =>
           Some (enc_res enc_mapres (map_model (fn_of isnone) (seq 0 n) kind (repeat None n) cs nc nw gen))
       | _, _, _, _, _, _, _ => None end
+  | "map-full", [shape; dim; cs; nc; nw; gen; pbar; kind; oshape; fk; isnone; nrows; nout] =>
+      match dec_list dec_nat shape, dec_mparams dim cs nc nw gen pbar, dec_kind kind, dec_list dec_nat oshape,
+            dec_str fk, dec_list dec_bool isnone, dec_nat nrows, dec_nat nout with
+      | Some shape, Some p, Some kind, Some oshape, Some fk, Some isnone, Some nrows, Some nout =>
+          Some (SL [enc_res enc_mapres (map_full (fn_full fk isnone) shape (seq 0 nrows) kind oshape (repeat None nout) p);
+                    enc_res enc_total (map_pbar_total shape p)])
+      | _, _, _, _, _, _, _, _ => None end
+  | "map-iter", [shape; dim; cs; nc; nw; gen; pbar; sh; fk; isnone; nrows; rp; pi] =>
+      match dec_list dec_nat shape, dec_mparams dim cs nc nw gen pbar, dec_bool sh,
+            dec_str fk, dec_list dec_bool isnone, dec_nat nrows, dec_list dec_nat rp, dec_list dec_nat pi with
+      | Some shape, Some p, Some sh, Some fk, Some isnone, Some nrows, Some rp, Some pi =>
+          Some (enc_res (enc_list (enc_opt (enc_list (enc_opt enc_nat))))
+                        (map_iter_full (fn_full fk isnone) shape (seq 0 nrows) p sh rp pi))
+      | _, _, _, _, _, _, _, _ => None end
   | "shuffle", [rp; cs; nc; nw] =>
       match dec_list dec_nat rp, dec_opt dec_nat cs, dec_opt dec_nat nc, dec_nat nw with
       | Some rp, Some cs, Some nc, Some nw =>
